@@ -65,6 +65,20 @@ func cmdBuiltins(args []string) {
 				}
 			}
 		}
+		// recipes that add custom characters to ONE class in each role (excluded, allowed, required): nothing they do may stick to the class
+		for _, f := range []spg.CTFlag{spg.Uppers, spg.Lowers, spg.Digits, spg.Symbols, spg.Ambiguous} {
+			for _, rr := range []spg.CharRecipe{
+				{Length: 4, Allow: spg.All, Exclude: f, ExcludeChars: "aZ3!5S-q"},
+				{Length: 4, Allow: f, AllowChars: "aZ3!5S-qé"},
+				{Length: 4, Allow: spg.All, Require: f, RequireSets: []string{"aZ3!5S-q"}},
+				{Length: 4, Allow: spg.Letters, Exclude: f, ExcludeChars: "xyzXYZ", RequireSets: []string{"09"}},
+			} {
+				_ = rr.Alphabet()
+				_ = rr.Entropy()
+				_ = rr.SuccessProbability()
+				rr.Generate()
+			}
+		}
 		for _, rr := range []spg.CharRecipe{{Length: 1, Allow: spg.Digits, Require: spg.Uppers}, {Length: 2, Allow: spg.Digits, Require: spg.Uppers},
 			{Length: 1, Allow: spg.Symbols | spg.Digits, Require: spg.Lowers}, {Length: 20, Allow: spg.All, Require: spg.Uppers}} {
 			_ = rr.Alphabet()
